@@ -1,6 +1,7 @@
 (** C05 - every client request means at the device exactly what the caller asked for. *)
 From Coq Require Import String ZArith List.
 From NX Require Import Bytes Frame Wire Request Request_proofs Pinned_parse Pinned_parserecv.
+From NX Require PyLite Src_all Src_serialframe_proofs Src_parse_req_proofs.
 Open Scope Z_scope.
 
 (** [delivered r fr payload]: the client call produced the NxScope frame
@@ -51,6 +52,50 @@ Theorem C05_div_vector : forall cur l,
     frame_div_decode payload cur = Ok l.
 Proof. exact div_vec_delivered. Qed.
 
+(** ** the request builders of proto/parse.py as they are now: the regenerated abstract
+    syntax, run by the PyLite interpreter on the object Parser(), computes exactly the model
+    the theorems above are about - every argument, every channel count, exceptions included
+    ([emb]: Ok b -> the bytes b, Raise w -> the Python exception class w) *)
+Section OnSource.
+Import PyLite Src_all Src_parse_req_proofs.
+Open Scope string_scope.
+
+Theorem C05_parser_constructor_src : forall n, construct program (2 + n) "Parser" [] = PyLite.Ok pa.
+Proof. exact construct_spec. Qed.
+
+Theorem C05_start_src : forall n b,
+  call_method program (2 + n) pa "frame_start" [PBool b] = emb (frame_start b).
+Proof. exact frame_start_spec. Qed.
+
+Theorem C05_cmninfo_src : forall n,
+  call_method program (2 + n) pa "frame_cmninfo" [] = emb frame_cmninfo.
+Proof. exact frame_cmninfo_spec. Qed.
+
+Theorem C05_chinfo_src : forall n chan,
+  call_method program (2 + n) pa "frame_chinfo" [PInt chan] = emb (frame_chinfo chan).
+Proof. exact frame_chinfo_spec. Qed.
+
+Theorem C05_enable_single_src : forall n chan v chmax,
+  call_method program (3 + n) pa "frame_enable" [PTuple [PInt chan; PBool v]; PInt chmax] =
+  emb (frame_enable (EnSingle chan v) chmax).
+Proof. exact frame_enable_single_spec. Qed.
+
+Theorem C05_enable_vector_src : forall n l chmax,
+  call_method program (3 + n) pa "frame_enable" [PList (map PBool l); PInt chmax] =
+  emb (frame_enable (EnVec l) chmax).
+Proof. exact frame_enable_vec_spec. Qed.
+
+Theorem C05_div_single_src : forall n chan v chmax,
+  call_method program (3 + n) pa "frame_div" [PTuple [PInt chan; PInt v]; PInt chmax] =
+  emb (frame_div (DivSingle chan v) chmax).
+Proof. exact frame_div_single_spec. Qed.
+
+Theorem C05_div_vector_src : forall n l chmax,
+  call_method program (3 + n) pa "frame_div" [PList (map PInt l); PInt chmax] =
+  emb (frame_div (DivVec l) chmax).
+Proof. exact frame_div_vec_spec. Qed.
+End OnSource.
+
 Example C05_example :
   frame_div (DivSingle 1 200) 3 = Ok [85; 9; 0; 7; 0; 1; 200; 225; 138]%N /\
   frame_div_decode [0; 1; 200]%N [0; 0; 0] = Ok [0; 200; 0].
@@ -63,3 +108,5 @@ Print Assumptions C05_enable_single.
 Print Assumptions C05_enable_vector.
 Print Assumptions C05_div_single.
 Print Assumptions C05_div_vector.
+Print Assumptions C05_enable_vector_src.
+Print Assumptions C05_div_vector_src.
